@@ -336,7 +336,7 @@ def adjusted_target_rule(ctx, program, rid):
         uses = 0
         for call in calls:
             adj = call.targets[0].elts[1].id
-            nowname = norm(call.value.value.args[1])
+            nowname = norm(program.call_args(program.unit(uid), call.value.value)[1])  # (positional or `now=`)
             for n in body_walk(f):
                 if isinstance(n, ast.Name) and n.id == adj and isinstance(n.ctx, ast.Load):
                     uses += 1
